@@ -966,6 +966,92 @@ func vC03ProbeNegativeStart(t testing.TB, res *vResult) {
 	res.Note(fmt.Sprintf("probe NewReader(-1, committed) on log {0} with hw=-1: delivered [%s] end=%q (model precondition 0 <= start; partition.getStartOffset clamps negative offsets to 0)", vC03Ranges(offs), end))
 }
 
+// vC03ConcurrentHW: "while a partition is open its high watermark never moves backwards" with SEVERAL writers.
+// The writers are started while the log's mutex is held, so that all of them are inside SetHighWatermark when
+// it is released (the only way to overlap them without hooks); an observer samples HighWatermark() throughout.
+// Oracle (statement only): the sampled values never decrease, and once every SetHighWatermark(v) has returned the
+// HW is at least every v (= the maximum, the log holds that many messages); a reader from 0 then gets all of them.
+func vC03ConcurrentHW(t testing.TB, res *vResult, rnd *vRand) {
+	rounds := 60
+	if vThorough() {
+		rounds = 1500
+	}
+	fails := 0 // own budget: disagreements with a model whose regenerated facts changed must not crowd this scenario out
+	for round := 0; round < rounds && fails < 3; round++ {
+		n := 3 + rnd.Intn(6)
+		writers := 2 + rnd.Intn(5)
+		vals := make([]int64, writers)
+		for i := range vals {
+			vals[i] = int64(rnd.Intn(n))
+		}
+		vals[rnd.Intn(writers)] = int64(n - 1)
+		line := fmt.Sprintf("concurrent-hw n=%d values=%v", n, vals)
+		v := &vLogImpl{t: t}
+		v.exec("begin 1048576 0")
+		for i := 0; i < n; i++ {
+			v.l.Append([]*Message{{MagicByte: 1, Timestamp: int64(i + 1), Value: vC03Val(int64(i), 0), Offset: -1}})
+		}
+		stop := make(chan struct{})
+		var back atomic.Value
+		obsDone := make(chan struct{})
+		go func() {
+			defer close(obsDone)
+			last := int64(-1)
+			for {
+				h := v.l.HighWatermark()
+				if h < last && back.Load() == nil {
+					back.Store(fmt.Sprintf("HighWatermark() returned %d after %d", h, last))
+				}
+				if h > last {
+					last = h
+				}
+				select {
+				case <-stop:
+					return
+				default:
+				}
+			}
+		}()
+		var wg sync.WaitGroup
+		v.l.mu.Lock()
+		for _, x := range vals {
+			wg.Add(1)
+			go func(x int64) { defer wg.Done(); v.l.SetHighWatermark(x) }(x)
+		}
+		time.Sleep(time.Duration(200+rnd.Intn(800)) * time.Microsecond) // let them reach the mutex
+		v.l.mu.Unlock()
+		wg.Wait()
+		final := v.l.HighWatermark()
+		time.Sleep(100 * time.Microsecond)
+		close(stop)
+		<-obsDone
+		res.Count(line, true)
+		res.Dist("concurrent-hw-writers")
+		if b := back.Load(); b != nil {
+			fails++
+			res.Fail(vFailure{Kind: "spec", Case: []string{line}, Detail: "the high watermark moved backwards while the log was open: " + b.(string), Tag: "hw-moved-backwards"})
+		} else if final != int64(n-1) {
+			fails++
+			res.Fail(vFailure{Kind: "spec", Case: []string{line}, Detail: fmt.Sprintf("every SetHighWatermark has returned, the largest was %d, HighWatermark() = %d: the HW moved backwards (or an advance was lost)", n-1, final), Tag: "hw-moved-backwards"})
+		} else {
+			r := vC03Start(v.l, 0, 0)
+			dl := time.Now().Add(2 * time.Second)
+			for time.Now().Before(dl) {
+				if c, _ := r.count(); c >= n {
+					break
+				}
+				time.Sleep(200 * time.Microsecond)
+			}
+			offs, end := r.snapshot()
+			r.close()
+			if len(offs) != n {
+				res.Fail(vFailure{Kind: "spec", Case: []string{line}, Detail: fmt.Sprintf("HW = %d covers %d messages, a reader from 0 received [%s] end=%q", final, n, vC03Ranges(offs), end), Tag: "committed-not-delivered"})
+			}
+		}
+		v.close()
+	}
+}
+
 func TestVerifC03(t *testing.T) {
 	model := vStartModel(t)
 	defer model.Close()
@@ -1138,6 +1224,9 @@ func TestVerifC03(t *testing.T) {
 
 	// (3) stepped schedules on the real log + (4) wake-up race (zz_verif_c03_steps_test.go)
 	vC03StepsAll(t, model, res, rnd)
+
+	// (g) several HW writers at once (a leader has two: the commit loop and the replication-factor-1 fast path)
+	vC03ConcurrentHW(t, res, rnd)
 
 	// (d) free-running stress
 	total := 5 * time.Second
